@@ -463,7 +463,13 @@ func escapeText(s string) string {
 		if i+1 < len(s) && s[i] == '{' && s[i+1] == '{' {
 			end := strings.Index(s[i+2:], "}}")
 			if end != -1 {
-				b.WriteString(s[i : i+2+end+2])
+				expr := s[i : i+2+end+2]
+				// Written as it is, an expression holding something that reads as a
+				// character reference would be decoded by the next parse.
+				if html.UnescapeString(expr) != expr {
+					expr = strings.ReplaceAll(expr, "&", "&amp;")
+				}
+				b.WriteString(expr)
 				i += 2 + end + 2
 				continue
 			}
